@@ -193,6 +193,9 @@ void h_mode_step1(void)
     __CPROVER_assert(impl.readModes.present == impl0.readModes.present && impl.readModes.wval == impl0.readModes.wval && impl.receiveBuffers.present == present0 && impl.receiveBuffers.wval == &wbuf, "F3 mode and buffer entry of every other session are untouched");
     return;
   }
+  /* st == 0 (`return false`) can only be an entry fence during teardown (none in step 1 today; unit transport_teardown clause FS1/FS2) */
+  __CPROVER_assert(st != 0 || (impl0.shuttingDown && impl.readModes.present == impl0.readModes.present && impl.readModes.wval == impl0.readModes.wval && impl.receiveBuffers.present == present0 && G_made == 0), "P0 step 1 refuses only during teardown, and then touches nothing");
+  if (st == 0) return;
   __CPROVER_assert((st == 1 || st == 2) && (st != 2 || mode == ReadMode_Async) && (!(old == ReadMode_Sync && mode == ReadMode_Async) || st == 2), "P1 the Sync->Async switch is always deferred to the ordered flush; only a switch to Async is ever deferred");
   __CPROVER_assert(st != 2 || (impl.readModes.present == impl0.readModes.present && impl.readModes.wval == impl0.readModes.wval && impl.receiveBuffers.present == present0 && G_made == 0), "P2 ... leaving the mode (so the I/O thread keeps buffering / dropping) and the buffer map untouched");
   __CPROVER_assert(st != 1 || (impl.readModes.present && impl.readModes.wval == mode), "P3 every other switch takes effect in this critical section");
